@@ -1,4 +1,5 @@
 import CddVerif.Proofs.DocGN
+import CddVerif.Properties.C14
 /-!
 # C14 — every parser returns a well-formed interface description: the Google and NumPy docstring parsers
 
@@ -66,6 +67,11 @@ theorem shape_by_construction (ir : GIR) : ir.returns = none ∨ ∃ p : GParam,
   cases h : ir.returns with
   | none => exact Or.inl rfl
   | some p => exact Or.inr ⟨p, rfl, rfl⟩
+
+/-- model faithfulness, proved rather than assumed: every unit the scanner hands to the parse phase holds at least one
+    line, so `scan[0]` / `elem[0]` there never raise `IndexError` (the model's `headD` never meets an empty unit) -/
+theorem units_nonempty (style : GNStyle) (text : Str) (sc : Scanned) (h : scanPhase style text = .ok sc) :
+    ∀ unit ∈ sc.args, unit ≠ [] := scanPhase_args_ne style text sc h
 
 /-! ### non-vacuity and the de-duplication at work -/
 
